@@ -782,10 +782,28 @@ def numeric_pr(rep, fnd, pid, tier):
                 x[:] = 0
                 x[..., 0, 0] = 1
                 x[..., -1, -1] = -3
-            cfg = dict(biort=b, qshift=q, H=H, W=W, J=J)
+            # how the modules come about, in turn: from the names; from TUPLES of the named tables' arrays (the other constructor
+            # path); from names but used after a life-cycle operation (deep copy, .double() of float32-built modules compared at
+            # float32 accuracy is C16's business - here: copies and reuse of ONE object across images)
+            kind = ["names", "tuples", "deepcopy", "names, objects reused"][n % 4]
+            cfg = dict(biort=b, qshift=q, H=H, W=W, J=J, modules=kind)
             try:
-                yl, yh = pw.DTCWTForward(biort=b, qshift=q, J=J)(torch.tensor(x))
-                xr = pw.DTCWTInverse(biort=b, qshift=q)((yl, yh)).numpy()
+                if kind == "tuples":
+                    from pytorch_wavelets.dtcwt import coeffs as _co
+                    h0o, g0o, h1o, g1o = _co.biort(b)
+                    h0a, h0b, g0a, g0b, h1a, h1b, g1a, g1b = _co.qshift(q)
+                    fwd = pw.DTCWTForward(biort=(h0o, h1o), qshift=(h0a, h0b, h1a, h1b), J=J)
+                    inv = pw.DTCWTInverse(biort=(g0o, g1o), qshift=(g0a, g0b, g1a, g1b))
+                else:
+                    fwd, inv = pw.DTCWTForward(biort=b, qshift=q, J=J), pw.DTCWTInverse(biort=b, qshift=q)
+                if kind == "deepcopy":
+                    import copy
+                    fwd, inv = copy.deepcopy(fwd), copy.deepcopy(inv)
+                if kind == "names, objects reused":
+                    other = torch.tensor(rng.standard_normal((1, 1, H + 6, W + 2)))
+                    inv(fwd(other))                                  # an earlier image of another size through the same objects
+                yl, yh = fwd(torch.tensor(x))
+                xr = inv((yl, yh)).numpy()
             except Exception as e:   # noqa
                 rep.violation("DTCWT round trip raised %r at %s" % (e, cfg), {"api": "DTCWT round trip", "check": "numeric_pr", "cfg": cfg})
                 continue
